@@ -45,6 +45,16 @@ let parse_op line : op =
       { th = i th; inv = i inv; rsp = i rsp; kind = k; res = r; text = line }
   | _ -> failwith ("op: " ^ line)
 
+(* --ignore-values: only the locking behaviour is judged (who gets a guard, which tries fail); the values guards
+   show and the results of guard operations are not compared *)
+let ignore_values = ref false
+let same_res (a : res) (b : res) : bool =
+  if not !ignore_values then a = b else
+  match a, b with
+  | RGuard _, RGuard _ -> true
+  | (RVal _ | RExists), (RVal _ | RExists) -> true
+  | _ -> a = b
+
 (* the result of the abstract machine, in the vocabulary of the history; [pool]: LockPool guards show no value *)
 let res_of_obs ~pool (o : obs) : res option =
   let zo = function None -> None | Some v -> Some (int_of_z v) in
@@ -86,7 +96,7 @@ let apply ~pool (s : st) (o : op) : st option =
     (match spec_call s.sp call with
      | Some (sp', Some ob) ->
          (match res_of_obs ~pool ob with
-          | Some r when r = o.res ->
+          | Some r when same_res r o.res ->
               let names = (match o.kind, gid_of_obs ob with
                            | KLock (_, _, g), Some sg -> (g, sg) :: s.names
                            | _ -> s.names) in
@@ -132,7 +142,7 @@ let replay_on_model ~lru ~pool (order : op list) : string option =
       match seq_call c !st O call with
       | ROk (s', ob) ->
           (match res_of_obs ~pool ob with
-           | Some r when r = o.res ->
+           | Some r when same_res r o.res ->
                (match o.kind, gid_of_obs ob with
                 | KLock (_, _, g), Some sg -> names := (g, sg) :: !names
                 | _ -> ());
@@ -149,7 +159,8 @@ let replay_on_model ~lru ~pool (order : op list) : string option =
   !bad
 
 let () =
-  let file = Sys.argv.(1) in
+  let args = List.filter (fun a -> if a = "--ignore-values" then (ignore_values := true; false) else true) (List.tl (Array.to_list Sys.argv)) in
+  let file = List.hd args in
   let ic = open_in file in
   let n_hist = ref 0 and n_ok = ref 0 and n_bad = ref 0 and n_ops = ref 0 and n_model_bad = ref 0 in
   let n_conc = ref 0 and maxops = ref 0 in
@@ -185,7 +196,7 @@ let () =
                let st = List.fold_left (fun s o -> match apply ~pool s o with Some s' -> s' | None -> s) { sp = spec_init; names = [] } order in
                let valued = List.filter (fun k -> st.sp.sp_val (nat_of_int k) <> None) (List.init (!nkeys + 1) (fun k -> k)) in
                (match !final_keys with
-                | Some ks when ks <> valued ->
+                | Some ks when ks <> valued && (pool || not !ignore_values) ->
                     incr n_bad;
                     Printf.printf "FINALSTATE hist=%s backend=%s reported=[%s] expected=[%s]\n" !id !backend
                       (String.concat " " (List.map string_of_int ks)) (String.concat " " (List.map string_of_int valued))
